@@ -123,8 +123,15 @@ func vh_C13_history() {
 	lx.priori = []int{0, 1, len(lx.priorRune) - 1}[vChoice("ringpos", 3)]
 	lx.buffer.WriteString(vString("junkbuf", 2))
 	lx.tokens = append(lx.tokens, Token{typ: TokenSymbol, str: "junk"})
-	n := 1 + vChoice("len", vC13Len())
-	txt := vString("t", n)
+	// the text: every short byte string, or one of the longer texts that
+	// exercise each lexer feature (numeric escapes, signs, operators, ...)
+	var txt string
+	if k := vChoice("text", 1+len(vC13Features)); k == 0 {
+		n := 1 + vChoice("len", vC13Len())
+		txt = vString("t", n)
+	} else {
+		txt = vC13Features[k-1]
+	}
 	a, errA, pA := vParse(fresh, txt)
 	b, errB, pB := vParse(used, txt)
 	vAssert(pA == pB, "same-panic-behaviour")
@@ -234,4 +241,12 @@ func vh_C13_lasttoken() {
 	vAssert(errB == nil, "bare-no-error")
 	vAssert(vSexpListEq(a, b), "last-token-not-lost")
 	vReach("lasttoken")
+}
+
+// longer concrete texts covering the lexer's features, read by the havocked
+// lexer in vh_C13_history and after arbitrary first texts
+var vC13Features = []string{
+	`"\x41\u00e9\U0001F600"`, `'\x41'`, `'\u00e9'`, `"a\n\t\"b"`, "-1.5e-3 ", "+2 ", "a-1 ", "1-a ", "(a . b)", "[1 2,3]",
+	"{a + b * c}", "x.y.z ", ":=", "a:=1 ", "~@x ", "^(a ~b)", "`raw string`", "// c\n1 ", "/* b */ 2 ", "0x1F 0o17 0b101 5ULL ",
+	"a: b ", "#x ", "$y ", "1e5 ", ".5 ", "-Inf ", "'a' ", "true false nil ",
 }
